@@ -120,10 +120,12 @@ def directed_specs(result, seed, cap=5):
                 continue
             later = sorted({t[1] for t in ts[i + 1:] if t[1] != tid})
             earlier = sorted({t[1] for t in ts[:i] if t[1] != tid} - set(later))
+            # does another caller work on the very same element (not just the same container)?
+            exact = obj[0] == 'elem' and any(t[5] == obj and t[1] != tid for t in ts)
             if later or earlier:
                 per_victim.setdefault(tid, []).append((site_freq[(obj, lineno, kind)],
-                                                       0 if obj[0] == 'elem' else 1, tp,
-                                                       (later, earlier), (obj, lineno, kind)))
+                                                       (0 if exact else 1) if obj[0] == 'elem' else 2,
+                                                       tp, (later, earlier), (obj, lineno, kind), exact))
         for tid in sorted(per_victim):
             lst = sorted(per_victim[tid], key=lambda c: (c[1], c[0], c[2]))
             pick, sites = [], set()
@@ -139,7 +141,9 @@ def directed_specs(result, seed, cap=5):
                 obj, lineno, kind = c[4]
                 # mid-line touches of an aliased element first (no line-level pre-emption reaches
                 # them), then line-level touches of elements, cache-key windows, container users
-                if obj[0] == 'elem':
+                if obj[0] == 'elem' and c[5]:
+                    klass = -1 if kind in ('HX', 'X') else 0    # two callers on the same element
+                elif obj[0] == 'elem':
                     klass = 0 if kind in ('HX', 'X') else 1
                 elif obj[0] == 'static':
                     klass = 0           # right after a write to module/class-level state
@@ -151,7 +155,7 @@ def directed_specs(result, seed, cap=5):
     cands.sort(key=lambda c: c[:6])
     # weighted sampling without replacement: precise windows are preferred but every class of
     # candidate keeps a chance, and different runs make different choices
-    weight = {0: 16.0, 1: 6.0, 2: 4.0, 3: 2.0, 4: 1.0}
+    weight = {-1: 48.0, 0: 16.0, 1: 6.0, 2: 4.0, 3: 2.0, 4: 1.0}
     pool = []
     seen = set()
     for c in cands:
